@@ -206,7 +206,7 @@ def check_diff_siblings(ctx, f):
                     # does the returned item come out of an Option<Item> local (the stand-in) rather than from diff_item(..)?
                     from_call = any((norm_fn(c) or "").endswith("::diff_item") for c in pv.callees())
                     from_opt = any("@Some" in "".join(pr) for _, pr in pv.places) or any((norm_fn(c) or "").endswith("::take") for c in pv.callees())
-                    if from_opt and not from_call:
+                    if from_opt:
                         rets.append((bi, st))
         for k, (bi, st) in util.ordinal_keys(rets, lambda it: "%s::next|stand-in returned" % name.split("::")[-1]):
             n += 1
